@@ -123,7 +123,26 @@ fn open_and_read(dir: &Path, cfg: Cfg, names: &BTreeSet<String>, tap: bool) -> (
             }
             let mut m = BTreeMap::new();
             for n in names {
-                m.insert(n.clone(), db.exec(&format!("SELECT * FROM {n}")));
+                let mut out = db.exec(&format!("SELECT * FROM {n}"));
+                // every row the scan returns must also be found through `k = <its key>` (index path when
+                // the table has a unique index on k); a disagreement replaces the table's answer
+                if n == "t" {
+                    if let Out::Rows(rows) = &out {
+                        for r in rows.clone() {
+                            if let Some(Val::Int(k)) = r.first() {
+                                let look = db.exec(&format!("SELECT * FROM {n} WHERE k = {k}"));
+                                let mut same_key: Vec<Vec<Val>> = rows.iter().filter(|x| x.first() == r.first()).cloned().collect();
+                                same_key.sort();
+                                let ok = matches!(&look, Out::Rows(l) if { let mut l = l.clone(); l.sort(); l == same_key });
+                                if !ok {
+                                    out = Out::Err(ErrClass::Internal, format!("lookup `WHERE k = {k}` answers {} but the scan returns {}", look.show(), Out::Rows(same_key).show()));
+                                    break;
+                                }
+                            }
+                        }
+                    }
+                }
+                m.insert(n.clone(), out);
             }
             // keep the files: Db::drop would delete the directory
             db.close();
@@ -134,6 +153,93 @@ fn open_and_read(dir: &Path, cfg: Cfg, names: &BTreeSet<String>, tap: bool) -> (
         }
     };
     (res, evs)
+}
+
+/// C08: the recovered database must keep working. Open it, create a table, insert into it and into
+/// every readable recovered table that has the (k INT, v INT) shape, read back, close, reopen, read again.
+fn probe_after_recovery(dir: &Path, cfg: Cfg, recovered: &BTreeMap<String, Out>) -> Option<String> {
+    let keep = |mut db: Db| {
+        db.close();
+        let _ = std::mem::replace(&mut db.dir, PathBuf::from("/nonexistent-verif-dir"));
+        drop(db);
+    };
+    let mut db = match Db::open_in(dir.to_path_buf(), cfg) {
+        Ok(d) => d,
+        Err(e) => return Some(format!("probe: open failed: {e}")),
+    };
+    let mut expect: Vec<(String, Out)> = vec![];
+    let mut step = |db: &mut Db, sql: &str, want: Option<Out>| -> Option<String> {
+        let o = db.exec(sql);
+        match want {
+            Some(w) if o != w => Some(format!("probe: `{sql}` answered {} (expected {})", o.show(), w.show())),
+            None if o.is_err() => Some(format!("probe: `{sql}` failed: {}", o.show())),
+            _ => None,
+        }
+    };
+    let mut problem = step(&mut db, "CREATE TABLE zz_probe (k INT, v INT, UNIQUE(k))", Some(Out::Ddl));
+    if problem.is_none() {
+        problem = step(&mut db, "INSERT INTO zz_probe VALUES (1, 1)", Some(Out::Count(1)));
+    }
+    if problem.is_none() {
+        let w = Out::Rows(vec![vec![Val::Int(1), Val::Int(1)]]);
+        problem = step(&mut db, "SELECT * FROM zz_probe", Some(w.clone()));
+        expect.push(("SELECT * FROM zz_probe".into(), w));
+    }
+    for (name, out) in recovered {
+        if problem.is_some() {
+            break;
+        }
+        let Out::Rows(rows) = out else { continue };
+        // the shape of the probe row is taken from an existing row (an empty table tells nothing about its columns)
+        let Some(model_row) = rows.first() else { continue };
+        if model_row.len() != 2 || rows.iter().any(|r| r[0] == Val::Int(77)) || !matches!(model_row[0], Val::Int(_)) {
+            continue;
+        }
+        let (second_sql, second_val) = match &model_row[1] {
+            Val::Int(_) => ("770".to_string(), Val::Int(770)),
+            Val::Text(_) => ("'probe'".to_string(), Val::Text("probe".into())),
+            _ => continue,
+        };
+        problem = step(&mut db, &format!("INSERT INTO {name} VALUES (77, {second_sql})"), Some(Out::Count(1)));
+        if problem.is_none() {
+            let mut want = rows.clone();
+            want.push(vec![Val::Int(77), second_val.clone()]);
+            want.sort();
+            let got = db.exec(&format!("SELECT * FROM {name}"));
+            let ok = matches!(&got, Out::Rows(g) if { let mut g = g.clone(); g.sort(); g == want });
+            if !ok {
+                problem = Some(format!("probe: after INSERT INTO {name} VALUES (77, {second_sql}) the table reads {} (expected the recovered rows plus the new one)", got.show()));
+            }
+            expect.push((format!("SELECT * FROM {name}"), Out::Rows(want)));
+        }
+    }
+    keep(db);
+    if problem.is_some() {
+        return problem;
+    }
+    // the probe's own commits must survive a clean close and reopen
+    let mut db = match Db::open_in(dir.to_path_buf(), cfg) {
+        Ok(d) => d,
+        Err(e) => return Some(format!("probe: reopen after the probe workload failed: {e}")),
+    };
+    for (sql, want) in &expect {
+        let got = db.exec(sql);
+        let same = match (&got, want) {
+            (Out::Rows(g), Out::Rows(w)) => {
+                let (mut g, mut w) = (g.clone(), w.clone());
+                g.sort();
+                w.sort();
+                g == w
+            }
+            _ => false,
+        };
+        if !same {
+            problem = Some(format!("probe: after reopen `{sql}` answered {} (expected {})", got.show(), want.show()));
+            break;
+        }
+    }
+    keep(db);
+    problem
 }
 
 fn contents_match(got: &BTreeMap<String, Out>, want: &Contents, all_names: &BTreeSet<String>) -> Result<(), String> {
@@ -298,6 +404,7 @@ pub fn run_once(p: &CrashParams, hist: &[usize]) -> StepReport {
     let mut n_points = 0u64;
     let mut n_opens = 0u64;
     let mut n_nested = 0u64;
+    let mut n_probes = 0u64;
     let mut n_inflight = 0u64;
     let mut n_open_fail = 0u64;
     let mut problems: Vec<String> = vec![];
@@ -435,6 +542,14 @@ pub fn run_once(p: &CrashParams, hist: &[usize]) -> StepReport {
                 }
             }
         }
+        if p.mode == "C08" && point_problem.is_none() {
+            if let Some(first) = &recovered {
+                n_probes += 1;
+                if let Some(pb) = probe_after_recovery(&img, cfg, first) {
+                    point_problem = Some(format!("{where_}: {pb}"));
+                }
+            }
+        }
         let _ = std::fs::remove_dir_all(&img);
         if let Some(pp) = point_problem {
             if !active_triggers.is_empty() {
@@ -453,6 +568,7 @@ pub fn run_once(p: &CrashParams, hist: &[usize]) -> StepReport {
     rep.counters.insert("crash_points".into(), n_points);
     rep.counters.insert("images_opened".into(), n_opens);
     rep.counters.insert("nested_recovery_crash_points".into(), n_nested);
+    rep.counters.insert("post_recovery_probe_workloads".into(), n_probes);
     rep.counters.insert("crash_points_with_commit_in_flight".into(), n_inflight);
     rep.counters.insert("images_that_failed_to_open".into(), n_open_fail);
     rep.counters.insert("acknowledged_commits".into(), acks.len() as u64);
